@@ -36,6 +36,7 @@ def run(ctx):
     _r5(ctx)
     _r7(ctx)
     _r8(ctx)
+    _r9_options_kept_as_read_and_all_written(ctx)
 
 
 def _r8(ctx):
@@ -522,3 +523,69 @@ def _r7(ctx):
                 any(s.get("rv") and s["rv"]["k"] == "bin" and s["rv"]["op"] == "BitAnd" and s["rv"]["b"].get("k", {}).get("int") == "65535" for _, _, s in b.stmts())
             ctx.check(neg and guard and fold and bool(cfg.back_edges()), "R7", "checksum:fold-carries-then-complement", ctx.where(b),
                       "while sum > 0xffff { sum = (sum >> 16) + (sum & 0xffff) }; !sum")
+
+
+MAP_FILL = ("entry", "or_default", "or_insert", "or_insert_with", "or_insert_with_key", "extend", "extend_from_slice", "insert", "append", "push",
+            "get", "contains_key", "len", "is_empty", "iter", "into_iter", "next", "deref", "as_slice", "as_ref", "clone", "reserve", "with_capacity")
+ITEM_DROPPERS = ("filter", "filter_map", "take", "skip", "step_by", "take_while", "skip_while", "find", "find_map", "nth", "last", "peekable", "zip")
+
+
+def _r9_options_kept_as_read_and_all_written(ctx):
+    """decode(encode(m)) = m for the option map: the decoder stores what it read (the map is only filled, never edited afterwards),
+    and the encoder writes every stored entry, code and value taken from the entry itself"""
+    P = ctx.P
+    # ---- decoder
+    decs = [b for fid, b in P.bodies.items() if fid.endswith("dhcppkt::parse_options")]
+    n = 0
+    for b in decs:
+        fam = P.family(b.id)
+        for x in fam:
+            ctx.saw(x)
+        T = terms(P, b)
+        maps = [norm(dict(T.rvalue(st["rv"], bb, idx)[3]).get("other", ("unknown",))) for _, bb, idx, st in find_aggs(P, "dhcppkt::DhcpOptions", [b])]
+        maps = [m_ for m_ in maps if m_[0] == "call"]
+        n += len(maps)
+        edits = []
+        for x in fam:
+            Tx = T if x is b else terms(P, x)
+            for bb, tm in x.calls():
+                nme = callee_name(tm) or ""
+                last = nme.rsplit("::", 1)[-1].split("<")[0]
+                args = Tx.call_args(bb)
+                if not args:
+                    continue
+                a0 = norm(args[0])
+                touches = any(y in maps for y in subterms(a0)) and ("HashMap" in nme or "hash_map" in nme or "BTreeMap" in nme or "Vec" in nme or "slice" in nme or "Iterator" in nme)
+                if touches and last not in MAP_FILL:
+                    edits.append("%s at %s" % (last, P.rel(tm["sp"])))
+        ctx.check(bool(maps) and not edits, "R9", "decoded-options-are-stored-as-read", ctx.where(b),
+                  "between reading an option and returning the map nothing may edit the stored values (calls on the map besides filling it: %s)" % (edits or "-"))
+    ctx.floor("R9", "option maps returned by the decoder", n, 1)
+    # ---- encoder
+    encs = [b for fid, b in P.bodies.items() if "DhcpOptions as" in fid and fid.endswith("Serialise>::serialise")]
+    m = 0
+    for b in encs:
+        fam = P.family(b.id)
+        T = terms(P, b)
+        drops = []
+        for x in fam:
+            ctx.saw(x)
+            for bb, tm in x.calls():
+                nme = callee_name(tm) or ""
+                if "Iterator" in nme and nme.rsplit("::", 1)[-1] in ITEM_DROPPERS:
+                    drops.append("%s at %s" % (nme.rsplit("::", 1)[-1], P.rel(tm["sp"])))
+        ctx.check(not drops, "R9", "encoder-visits-every-stored-option", ctx.where(b), "adaptors that skip entries: %s" % (drops or "-"))
+        for bb, tm in b.calls():
+            if not (callee_name(tm) or "").endswith("dhcppkt::serialise_option"):
+                continue
+            m += 1
+            args = [norm(a) for a in T.call_args(bb)]
+
+            def from_entry(a, k):
+                return any(y[0] == "field" and y[2] == k and norm(y[1])[0] == "payload" and norm(norm(y[1])[2])[0] == "call" and
+                           str(norm(norm(y[1])[2])[1]).endswith("::next") and any(z[0] == "field" and z[2] == "other" for z in subterms(y)) for y in subterms(a))
+            good = len(args) >= 2 and from_entry(args[0], "0") and from_entry(args[1], "1")
+            ctx.check(good, "R9", "option-written-from-its-own-map-entry", ctx.where(b, tm["sp"]),
+                      "code and value handed to serialise_option must be the key and the value of the entry being visited (are %s, %s)" % (
+                          show(args[0])[:70], show(args[1])[:70] if len(args) > 1 else None))
+    ctx.floor("R9", "option writes in the encoder", m, 1)
